@@ -140,6 +140,8 @@ structure OpView where
   overlay : Option (List (Nat × List Nat))
   /-- the upper-casing function of the executing build (`char::to_uppercase` table when `unicode=1`, ASCII otherwise) -/
   upper : Char → List Char := fun c => [c]
+  /-- ground-truth lines (`G …`, without the leading `G `) the image builder emitted so far in this history -/
+  ground : List String := []
 
 /-- property oracles evaluated on the implementation's own behaviour, with per-history state `σ` -/
 structure OracleDef (σ : Type) where
@@ -151,6 +153,7 @@ structure Hist (σ : Type) where
   id : String := ""
   scenario : String := ""
   cfgArgs : List String := []
+  ground : List String := []
   ost : σ
   sess : Session
   implImg : Img
@@ -317,7 +320,7 @@ def finishOp {σ : Type} (ctx : Ctx σ) (st : Stats) (h : Hist σ) (io : ImplOp)
   let view : OpView := { prop := cfg.prop, header := h.header, scenario := h.scenario, cfgArgs := h.cfgArgs, io := io,
                          before := implBefore, after := implAfter,
                          overlay := if h.tracking then some (overlayOf h.sess) else none,
-                         upper := h.sess.env.upper }
+                         upper := h.sess.env.upper, ground := h.ground }
   let (ost, msgs) := ctx.oracle.step h.ost view
   h := { h with ost := ost }
   for msg in msgs do
@@ -360,6 +363,7 @@ partial def loop {σ : Type} (ctx : Ctx σ) (inp : IO.FS.Stream) (st : Stats) (h
       { io with fault := some (k.toNat?.getD 0, kind, ind = "1") } })
   | "c" :: nums, some h =>
     loop ctx inp st (some { h with cur := h.cur.map fun io => { io with counts := some (nums.map fun n => n.toNat?.getD 0) } })
+  | "G" :: rest, some h => loop ctx inp st (some { h with ground := h.ground ++ [" ".intercalate rest] })
   | "K" :: rest, some h =>
     loop ctx inp st (some { h with cur := h.cur.map fun io => { io with krows := io.krows ++ [" ".intercalate rest] } })
   | "L" :: rest, some h =>
